@@ -1,4 +1,5 @@
 """Sidecar contracts for python-engineio. Importing this package fills pyvc.contract.REG."""
 from . import schemas      # noqa
 from . import c_packet     # noqa
+from . import c_payload    # noqa
 from . import c_base_server  # noqa
